@@ -26,7 +26,7 @@ Definition local_ok (before after : st) : bool :=
   forallb (fun p => match ctx_events (nodes after) start p with
                     | [] => true
                     | _ => match region_edges before p with [] => true | _ => false end
-                    end) (seq 0 (length (nodes after)))
+                    end) (containers (nodes after))
   && forallb (fun e => Nat.ltb (snd e) start) (edges before).
 
 (** the hypotheses of [order_edges_total] for one context *)
